@@ -514,8 +514,8 @@ def run_fixed_step_count(case):
         net = st.RDNetwork([st.Species("A", D=1.0, density=0)], [st.Reaction("A -> ", kf=0.1)])
         system = st.RDSystem(net, st.RDGridSpace(w=2, h=1, d=1), state=[5, 3])
         dt = 10 ** r.uniform(-4, -1)
-        nst = r.randint(0, 400)
-        tmax = dt * (nst + r.choice([0.0, 0.0, 0.5, r.random()]))
+        nst = r.randint(0, 400) if r.random() > 0.08 else 0
+        tmax = dt * (nst + r.choice([0.0, 0.0, 0.5, r.random()]))        # includes t_max == 0 exactly (one step, then complete)
         script = st.RDScript(system, t_sample=[0], t_max=tmax, time_step=dt, sampling_policy="no_sampling", rng_seed=1,
                              init_state_processing="none")
         e = engines.get(kind_)
@@ -528,7 +528,7 @@ def run_fixed_step_count(case):
         done = e.is_complete()
         e.finalize()
         n += 1
-        want = math.ceil(tmax / dt)
+        want = max(1, math.ceil(tmax / dt))
         if not done or abs(its - want) > 1:
             bad.append({"what": "fixed-step run does not complete after ceil(t_max/dt) +- 1 iterations", "dt": dt, "t_max": tmax,
                         "iterations": its, "expected": want, "complete": done, "engine": kind_})
